@@ -658,10 +658,16 @@ func c18UDP(c *vk.Ctx, r *rand.Rand, catcher *panicCatcher) bool {
 					return
 				}
 				k := keys[gr.Intn(len(keys))]
+				var lastID uint64
+				var lastT *udpTarget
 				for j := 0; j < 3; j++ {
-					cl.Send(ssUDP(k, randBytes(gr, k.Codec().C.SaltSize), w.targets[gr.Intn(3)].addr(), mkUDPPayload(nextID(c.Batch), 1, 30, 40)), w.rig.Addr4())
+					lastID, lastT = nextID(c.Batch), w.targets[gr.Intn(3)]
+					cl.Send(ssUDP(k, randBytes(gr, k.Codec().C.SaltSize), lastT.addr(), mkUDPPayload(lastID, 1, 30, 40)), w.rig.Addr4())
 					time.Sleep(time.Duration(gr.Intn(3)) * time.Millisecond)
 				}
+				// closed loop: the senders never run ahead of the server by more than a few datagrams
+				// (an unbounded backlog in the receive queue would only measure the machine's load)
+				lastT.waitID(lastID, time.Second)
 				cl.Close()
 			}
 		}(g)
